@@ -11,6 +11,9 @@
 //!   filter-ast     parsed AST = the generator's intended tree     C02/filter-grammar-differs-from-documented
 //!   filter-sel     `agrind '<filter>'` prints exactly the selected lines, in order   C02/selected-lines-differ
 //!   filter-count   `_count` = number of selected lines            C02/count-differs
+//!   filter-badutf8-sel / -count   the same two on lines that are not valid UTF-8: the line the filter
+//!                  judges is the lossily decoded text (each invalid sequence = U+FFFD, exactly
+//!                  `String::from_utf8_lossy`), so a wildcard gap spans such bytes like any other text
 //!   any panic / hang                                              C02/crash
 use super::common::*;
 use super::kwgen::{self, Kind, Passes};
@@ -582,24 +585,76 @@ fn gen_chain(r: &mut Rng, depth: usize) -> String {
 
 struct Input {
     bytes: Vec<u8>,
-    /// each line with its terminator, as the implementation sees it (None when not valid UTF-8)
-    lines: Vec<Option<String>>,
+    /// each line with its terminator as the filter has to judge it: the bytes decoded lossily (every
+    /// invalid UTF-8 sequence stands for one U+FFFD, `String::from_utf8_lossy`)
+    lines: Vec<String>,
+}
+
+/// byte sequences that are not valid UTF-8: stray bytes, a lone lead byte, truncated 3- and 4-byte
+/// sequences, overlong forms, a surrogate, a value above U+10FFFF, latin-1 letters
+const BAD_SEQS: &[&[u8]] = &[
+    &[0xff],
+    &[0xff, 0xfe],
+    &[0x80],
+    &[0xc3],
+    &[0xe2, 0x82],
+    &[0xf0, 0x9f, 0x98],
+    &[0xf0, 0x9f],
+    &[0xc0, 0xaf],
+    &[0xe0, 0x80, 0xaf],
+    &[0xf0, 0x80, 0x80, 0xaf],
+    &[0xed, 0xa0, 0x80],
+    &[0xf4, 0x90, 0x80, 0x80],
+    &[0xe9],
+    &[0xc3, 0xff],
+    &[0xbf, 0xbf, 0xbf],
+];
+
+/// stand-in of `BAD_SEQS[i]` while a line is still built as text (private-use characters: no
+/// generator produces them)
+fn bad_char(i: usize) -> char {
+    char::from_u32(0xE000 + i as u32).unwrap()
+}
+
+fn some_bad(r: &mut Rng) -> char {
+    bad_char(r.below(BAD_SEQS.len()))
+}
+
+/// the bytes of a line built with `bad_char` stand-ins
+fn real_bytes(l: &str) -> Vec<u8> {
+    let mut out = vec![];
+    for c in l.chars() {
+        let i = (c as u32).wrapping_sub(0xE000) as usize;
+        if i < BAD_SEQS.len() {
+            out.extend_from_slice(BAD_SEQS[i]);
+        } else {
+            let mut b = [0u8; 4];
+            out.extend_from_slice(c.encode_utf8(&mut b).as_bytes());
+        }
+    }
+    out
 }
 
 fn gen_input(r: &mut Rng, kws: &[(Kind, String)]) -> Input {
     let n = 5 + r.below(16);
-    let bad_utf8 = r.chance(8);
+    let bad_utf8 = r.chance(20);
     let cased = r.chance(6);
     let mut bytes = vec![];
     let mut lines = vec![];
     for i in 0..n {
         let mut l = String::new();
+        // invalid bytes at chosen places of this line: inside the gaps a wildcard has to span, next to
+        // the literal pieces, inside a piece (which then is no occurrence), at line start / end
+        let bad_here = bad_utf8 && r.chance(60);
         if r.chance(6) {
             // empty or blank line
             if r.chance(50) {
                 l.push_str("  ");
             }
         } else {
+            if bad_here && r.chance(15) {
+                l.push(some_bad(r));
+            }
             if r.chance(50) {
                 l.push_str(&kwgen::junk(r, 4));
             }
@@ -607,15 +662,40 @@ fn gen_input(r: &mut Rng, kws: &[(Kind, String)]) -> Input {
                 if r.chance(55) {
                     let ps = kwgen::pieces(*kind, text);
                     let dmg = r.chance(18);
+                    if bad_here && r.chance(20) {
+                        l.push(some_bad(r));
+                    }
                     for (j, p) in ps.iter().enumerate() {
-                        if j > 0 && r.chance(50) {
+                        if j > 0 && bad_here && r.chance(60) {
+                            // the gap: invalid bytes alone, or among other text
+                            if r.chance(40) {
+                                l.push_str(&kwgen::junk(r, 2));
+                            }
+                            l.push(some_bad(r));
+                            if r.chance(25) {
+                                l.push(some_bad(r));
+                            }
+                            if r.chance(40) {
+                                l.push_str(&kwgen::junk(r, 2));
+                            }
+                        } else if j > 0 && r.chance(50) {
                             l.push_str(&kwgen::junk(r, 3));
                         }
                         if dmg && j == 0 {
                             l.push_str(&kwgen::damaged(r, p));
+                        } else if bad_here && r.chance(6) && p.chars().count() > 1 {
+                            // invalid bytes inside the piece: not an occurrence of it
+                            let v: Vec<char> = kwgen::variant(r, p, false).chars().collect();
+                            let at = 1 + r.below(v.len() - 1);
+                            l.extend(v[..at].iter());
+                            l.push(some_bad(r));
+                            l.extend(v[at..].iter());
                         } else {
                             l.push_str(&kwgen::variant(r, p, false));
                         }
+                    }
+                    if bad_here && r.chance(20) {
+                        l.push(some_bad(r));
                     }
                     if r.chance(60) {
                         l.push_str(&kwgen::junk(r, 3));
@@ -625,17 +705,19 @@ fn gen_input(r: &mut Rng, kws: &[(Kind, String)]) -> Input {
             if cased && r.chance(30) {
                 l.push(*r.pick(kwgen::CASED));
             }
+            if bad_here && r.chance(15) {
+                l.push(some_bad(r));
+            }
         }
         let l: String = kwgen::truncate_chars(&l.replace('\n', " "), 80);
-        let mut lb = l.clone().into_bytes();
-        let mut valid = true;
-        if bad_utf8 && r.chance(30) {
+        let mut lb = real_bytes(&l);
+        if bad_utf8 && r.chance(20) {
+            // anywhere, also in the middle of a multi-byte character
             let at = r.below(lb.len() + 1);
-            let junk: &[u8] = *r.pick(&[&[0xffu8, 0xfe][..], &[0x80][..], &[0xc3][..], &[0xe2, 0x82][..]]);
+            let junk: &[u8] = *r.pick(BAD_SEQS);
             for (k, b) in junk.iter().enumerate() {
                 lb.insert(at + k, *b);
             }
-            valid = std::str::from_utf8(&lb).is_ok();
         }
         let term: &str = if i + 1 == n && r.chance(15) {
             ""
@@ -649,7 +731,22 @@ fn gen_input(r: &mut Rng, kws: &[(Kind, String)]) -> Input {
             continue;
         }
         lb.extend(term.as_bytes());
-        lines.push(if valid { Some(format!("{}{}", l, term)) } else { None });
+        lines.push(String::from_utf8_lossy(&lb).into_owned());
+        bytes.extend(lb);
+    }
+    Input { bytes, lines }
+}
+
+/// an input of the given lines (each without its terminator)
+fn input_of(raw: &[Vec<u8>], last_terminated: bool) -> Input {
+    let mut bytes = vec![];
+    let mut lines = vec![];
+    for (i, l) in raw.iter().enumerate() {
+        let mut lb = l.clone();
+        if i + 1 < raw.len() || last_terminated {
+            lb.extend(if i % 5 == 3 { &b"\r\n"[..] } else { &b"\n"[..] });
+        }
+        lines.push(String::from_utf8_lossy(&lb).into_owned());
         bytes.extend(lb);
     }
     Input { bytes, lines }
@@ -714,11 +811,10 @@ fn selection_checks(ctx: &mut Ctx, ps: &mut Passes, fam_prefix: &str, query: &st
     let cnt_fam = format!("{}-count", fam_prefix);
     let mut kws = vec![];
     c_keywords(tree, &mut kws);
-    if inp.lines.iter().any(|l| l.is_none()) {
-        ctx.case(&sel_fam, "", "skip", json!({"why": "input with invalid UTF-8 (crash and model comparison only)"}));
-        return;
+    if std::str::from_utf8(&inp.bytes).is_err() {
+        ctx.count("filter:input-with-invalid-utf8-judged");
     }
-    if kws.iter().any(|k| kwgen::has_nonascii_cased(&k.1)) || inp.lines.iter().any(|l| kwgen::has_nonascii_cased(l.as_ref().unwrap())) {
+    if kws.iter().any(|k| kwgen::has_nonascii_cased(&k.1)) || inp.lines.iter().any(|l| kwgen::has_nonascii_cased(l)) {
         ctx.case(&sel_fam, "", "skip", json!({"why": "cased non-ASCII letter (the oracle is ASCII-case only)"}));
         return;
     }
@@ -744,7 +840,7 @@ fn selection_checks(ctx: &mut Ctx, ps: &mut Passes, fam_prefix: &str, query: &st
     let mut selected = 0i64;
     let mut sel_lo = 0i64; // selected lines if every ambiguous line is left out
     let mut sel_hi = 0i64;
-    for l in inp.lines.iter().map(|l| l.as_ref().unwrap()) {
+    for l in inp.lines.iter() {
         let with = sem(tree, l);
         let without = sem(tree, strip_terminator(l));
         let shown = l.trim_end().to_string();
@@ -853,7 +949,7 @@ fn e2e_case(ctx: &mut Ctx, ps: &mut Passes, chain: bool) {
                 ps.pass(ctx, ast_fam, &key, || json!({"query": query, "tree": show(want)}));
             } else {
                 // does the different reading change the selection on this input?
-                let differs = inp.lines.iter().flatten().any(|l| sem(want, l) != sem(got, l));
+                let differs = inp.lines.iter().any(|l| sem(want, l) != sem(got, l));
                 // `*` as an operand of OR / NOT stands for every line (dropped before repo commit 0ef6700:
                 // `a OR *` = `a`, `NOT *` = every line; the finding is fixed, a recurrence is an ordinary violation)
                 let star = has_star_operand(&query);
@@ -914,11 +1010,99 @@ fn star_witnesses(ctx: &mut Ctx) {
     }
 }
 
+/// "for all input lines (any bytes)": fixed filters on lines that carry each kind of invalid byte
+/// sequence inside the gap a wildcard spans, next to / inside the literal pieces, at line start and
+/// end. The line the filter judges is the lossily decoded text.
+fn badutf8_cases(ctx: &mut Ctx, ps: &mut Passes) {
+    let w = |t: &str| C::Kw(Kind::Wild, t.to_string());
+    let x = |t: &str| C::Kw(Kind::Exact, t.to_string());
+    let filters: Vec<(&str, C)> = vec![
+        ("start*end", w("start*end")),
+        ("NOT start*end", C::Not(Box::new(w("start*end")))),
+        ("(start*end OR nothing)", C::Or(vec![w("start*end"), w("nothing")])),
+        ("start*end AND NOT ok", C::And(vec![w("start*end"), C::Not(Box::new(w("ok")))])),
+        ("NOT (start*end OR only)", C::Not(Box::new(C::Or(vec![w("start*end"), w("only")])))),
+        ("s*t*e*d", w("s*t*e*d")),
+        ("st*rt*nd", w("st*rt*nd")),
+        ("start*ok*end", w("start*ok*end")),
+        ("caf*end", w("caf*end")),
+        ("start", w("start")),
+        ("\"start\"", x("start")),
+        ("\"start*end\"", x("start*end")),
+        ("\"t e\"", x("t e")),
+        ("\"\u{FFFD}\"", x("\u{FFFD}")),
+        ("\"t\u{FFFD}e\"", x("t\u{FFFD}e")),
+        ("start*\u{FFFD}", w("start*\u{FFFD}")),
+        ("NOT \"\u{FFFD}\"", C::Not(Box::new(x("\u{FFFD}")))),
+        ("*", C::True),
+    ];
+    let cat = |parts: &[&[u8]]| -> Vec<u8> { parts.concat() };
+    for (si, seq) in BAD_SEQS.iter().enumerate() {
+        if si % ctx.nshards != ctx.shard {
+            continue;
+        }
+        let q: &[u8] = seq;
+        let raw: Vec<Vec<u8>> = vec![
+            cat(&[b"start", q, b"end"]),
+            cat(&[b"start-ok-end"]),
+            cat(&[b"nothing here"]),
+            cat(&[b"START caf", q, b" END"]),
+            cat(&[q, b" start only"]),
+            cat(&[b"start ", q, b" end"]),
+            cat(&[b"start", q, q, b"end"]),
+            cat(&[b"start", q, b"x", q, b"end"]),
+            cat(&[q, b"start-end"]),
+            cat(&[b"start-end", q]),
+            cat(&[q, b"start", q, b"end", q]),
+            cat(&[b"start", q]),
+            cat(&[q, b"end"]),
+            cat(&[b"sta", q, b"rt end"]),
+            cat(&[b"start en", q, b"d"]),
+            cat(&[q]),
+            cat(&[b"end", q, b"start"]),
+            cat(&[b"start\xef\xbf\xbdend"]),
+            cat(&[b"start", q, b"ok", q, b"end"]),
+            cat(&[b"start\xc3\xa4", q, b"\xe2\x82\xacend"]),
+            cat(&[b"start", q, b"\t", q, b"end ok"]),
+        ];
+        for last_terminated in [true, false] {
+            let inp = input_of(&raw, last_terminated);
+            for (query, tree) in &filters {
+                if !last_terminated && !query.contains('*') {
+                    continue;
+                }
+                let key = ckey(query, &inp.bytes);
+                match imp::parse(query) {
+                    Ok((Some(p), _)) if canon_search(&p.search) == *tree => {}
+                    other => {
+                        ctx.case("filter-badutf8-ast", &key, "viol", json!({"class": "C02/filter-grammar-differs-from-documented", "what": "a filter in documented form is rejected or read differently",
+                            "query": query, "intended": show(tree), "parsed": other.ok().and_then(|p| p.0).map(|p| show(&canon_search(&p.search)))}));
+                        continue;
+                    }
+                }
+                let legacy = imp::run(query, &inp.bytes, "legacy", 10);
+                let qc = format!("{} | count", query);
+                let counted = imp::run(&qc, &inp.bytes, "json", 10);
+                if let Some(p) = crash_of(&legacy).or(crash_of(&counted)) {
+                    ctx.case("filter-badutf8", &key, "viol", json!({"class": "C02/crash", "what": "the implementation panicked or hung", "panic": p, "case": case_info(query, &inp.bytes)}));
+                    continue;
+                }
+                if !legacy.compiled || !counted.compiled {
+                    ctx.case("filter-badutf8-ast", &key, "viol", json!({"class": "C02/filter-grammar-differs-from-documented", "what": "the query parses but is rejected at compile time", "query": query}));
+                    continue;
+                }
+                selection_checks(ctx, ps, "filter-badutf8", query, &inp, tree, &legacy, Some(counted.stdout.as_slice()));
+            }
+        }
+    }
+}
+
 pub fn check(ctx: &mut Ctx) {
     let mut ps = Passes::new();
     if ctx.shard == 0 {
         star_witnesses(ctx);
     }
+    badutf8_cases(ctx, &mut ps);
     kw_stream(ctx, &mut ps);
     let n = ctx.budget(1200, 60000);
     for _ in 0..n {
